@@ -189,9 +189,10 @@ def consumer(F, site):
 def run(F, R, tier):
     # ---------------- C04-a ------------------------------------------------
     sites = []
+    inlined_helpers = {t_ for (_c, t_, _l) in getattr(F, "inlined", [])}
     for b in F.bodies:
-        if b.get("derived"):
-            continue
+        if b.get("derived") or b["path"] in inlined_helpers:
+            continue  # a helper extracted after arming is analysed inside each of its callers (inline view)
         for n in b["_nodes"]:
             k = n["k"]
             if k == "For":
